@@ -282,6 +282,7 @@ class Machine:
     def snapshot_old(self) -> None:
         self.old_env = dict(self.env)
         self.old_heap = {a: c.value for a, c in self.ctx.heap.items()}
+        self.old_extra = {a: dict(c.extra) for a, c in self.ctx.heap.items() if getattr(c, "extra", None)}
         self.old_globals = dict(self.global_syms)
 
     # ======================================================================================
@@ -1802,10 +1803,25 @@ class Machine:
         if self.spec and fsrc == "keys_of" and len(e.args) == 1:
             # keys_of(d): the insertion-ordered key sequence of a dict cell (spec only)
             a0 = e.args[0]
+            if isinstance(a0, ast.Call) and isinstance(a0.func, ast.Name) and a0.func.id == "old" and isinstance(a0.args[0], ast.Name) \
+                    and a0.args[0].id in self.global_syms and isinstance(self.global_syms[a0.args[0].id], VHeapRef):
+                # keys_of(old(G)): the key list the global dict G had at entry
+                addr = self.global_syms[a0.args[0].id].addr
+                ks = getattr(self, "old_extra", {}).get(addr, {}).get("keys")
+                if ks is None:
+                    raise EngineError(f"keys_of(old({a0.args[0].id})): no ordered model at entry")
+                return ks
             if isinstance(a0, ast.Name) and a0.id in self.env:
                 v = self.env.get(a0.id)
             elif isinstance(a0, ast.Name) and a0.id == "result" and self.result is not None:
                 v = self.result
+            elif isinstance(a0, ast.Name) and a0.id in self.global_syms and isinstance(self.global_syms[a0.id], VHeapRef):
+                v = self.global_syms[a0.id]
+                if self._spec_old_mode:
+                    ks = getattr(self, "old_extra", {}).get(v.addr, {}).get("keys")
+                    if ks is None:
+                        raise EngineError("keys_of under old()")
+                    return ks
             else:
                 v = self.eval(a0)
             if isinstance(v, VHeapRef) and self.ctx.cell(v.addr).kind == "dict":
